@@ -15,7 +15,7 @@ contract(
     props="C03",
     block=("assign bin_area #0", "assign obj.lower_bound_bins #0"),
     params={"bin_height": PYINT, "bin_width": PYINT, "item_area": PYINT, "obj": OBJ},
-    i64=False,
+    i64=False, npscalars=True,
     requires=["bin_height >= 1 and bin_width >= 1 and item_area >= 1"],
     opaque={"check_int_range": _check_int_range, "_lower_bound_damv": _damv},
     ensures=[
@@ -37,7 +37,7 @@ contract(
     params={"errors": PYINT},
     ghosts={"ME": PYINT},
     attrs={"self.__max_errors": "ME"},
-    i64=False,
+    i64=False, npscalars=True,
     requires=["ME >= 1"],
     returns=REAL,
     ensures=[tag("C17", "clamped-to-unit-interval", "0 <= result and result <= 1")],
@@ -62,7 +62,7 @@ contract(
     block=("assign n_items #0", "assign obj #0"),
     params={"matrix": _A2("MI", cols=3), "n_different_items": PYINT, "max_dim": PYINT, "min_dim": PYINT,
             "cls": OBJ, "use_name": OBJ},
-    i64=False,
+    i64=False, npscalars=True,
     requires=["n_different_items >= 1 and len(matrix) == n_different_items and 1 <= min_dim and min_dim <= max_dim"],
     opaque={"check_int_range": _check_int_range, "int_range_to_dtype": _irtd},
     attrs={"use_shape": "(n_different_items, 3)"},
@@ -102,7 +102,7 @@ contract(
     block=("assign b1 #0", "return #0"),
     params={"bin_width": PYINT, "bin_height": PYINT, "sum_s3_l": PYINT},
     ghosts={"n1": PYINT, "n2": PYINT, "n3": PYINT, "dn": PYINT},
-    i64=False, returns=PYINT,
+    i64=False, npscalars=True, returns=PYINT,
     requires=["bin_width >= bin_height and bin_height >= 1",      # _lower_bound_damv normalises to landscape
               "sum_s3_l >= 0 and n1 >= 0 and n2 >= 0 and n3 >= 0"],
     summaries={
